@@ -442,9 +442,9 @@ func runCheck(o checkOpts) *checkResult {
 			undec = append(undec, ob)
 		}
 	}
-	if len(undec) > 0 && o.timeout < 150 {
+	if len(undec) > 0 && o.timeout < 90 {
 		// few, long queries: less parallelism so that they do not starve each other
-		solveAll(undec, 150*timeScale, 6)
+		solveAll(undec, 90*timeScale, 6)
 	}
 	res.allObls = obls
 
